@@ -5,6 +5,7 @@ import (
 	"fmt"
 	"math"
 	"os"
+	"regexp"
 	"sort"
 	"strconv"
 	"strings"
@@ -15,6 +16,7 @@ import (
 	"github.com/mimecast/dtail/internal/io/line"
 	"github.com/mimecast/dtail/internal/mapr"
 	maprserver "github.com/mimecast/dtail/internal/mapr/server"
+	"github.com/mimecast/dtail/internal/omode"
 	"github.com/mimecast/dtail/internal/source"
 	"github.com/mimecast/dtail/verif/explore"
 	"github.com/mimecast/dtail/verif/vcontext"
@@ -334,7 +336,15 @@ func c05Reference(q c05Query, lines []string) (rows [][]string, ok bool) {
 				continue
 			}
 		default:
-			return nil, false
+			// <field> eq|contains "<literal>" with the literal taken exactly as written between the quotes
+			m := c05StringCond.FindStringSubmatch(q.Where)
+			if m == nil {
+				return nil, false
+			}
+			v, has := fields[m[1]]
+			if !has || (m[2] == "eq" && v != m[3]) || (m[2] == "contains" && !strings.Contains(v, m[3])) {
+				continue
+			}
 		}
 		var kp []string
 		for _, g := range groupFields {
@@ -587,7 +597,7 @@ func c05Tables(shapes []string, n int, f func(lines []string)) {
 // ends and the final result is taken; under ALL schedules within two deviations the final result must be the
 // central evaluation of everything the servers sent (every partial result counted exactly once).
 func c05Reporting(c *Ctx) {
-	for _, variant := range []string{"final-during-interim", "message-during-interim-then-final", "two-servers-and-interim"} {
+	for _, variant := range []string{"final-during-interim", "message-during-interim-then-final", "two-servers-and-interim", "outfile:interim-report-then-final-without-new-data"} {
 		variant := variant
 		sc := &explore.Scenario{Name: "client-reporting", Params: variant, Agg: "client-reporting", MaxSteps: 300000, Horizon: 10 * time.Minute}
 		sc.Run = func(cfg vrt.Config) (string, string, vrt.Result) {
@@ -610,6 +620,32 @@ func c05Reporting(c *Ctx) {
 				total := 0
 				final := ""
 				switch variant {
+				case "outfile:interim-report-then-final-without-new-data":
+					// the periodic reporter fires once more after the last partial result arrived; then the run ends
+					out := Scratch() + "/c05-reporting.csv"
+					os.Remove(out)
+					os.Remove(out + ".tmp")
+					qo, err := mapr.NewQuery("select count(x),sum(y) group by k outfile " + out)
+					if err != nil {
+						panic(err)
+					}
+					ho := chandlers.NewMaprHandler("srv0", qo, g)
+					ho.Write(msg)
+					ho.Write(msg)
+					total = 2
+					if err := g.WriteResult(qo, false); err != nil {
+						viol = "interim report: " + err.Error()
+						return
+					}
+					if err := g.WriteResult(qo, true); err != nil {
+						viol = "final report: " + err.Error()
+						return
+					}
+					b, err := os.ReadFile(out)
+					if err != nil || strings.TrimSpace(string(b)) != "count(x),sum(y)\n2,4.000000" {
+						viol = fmt.Sprintf("%s: after an interim and the final report the outfile holds %q (exists: %v), want the final result \"count(x),sum(y)\\n2,4.000000\"", variant, string(b), err == nil)
+					}
+					return
 				case "final-during-interim":
 					h0.Write(msg)
 					h1.Write(msg)
@@ -722,7 +758,71 @@ func c05LargeValues(c *Ctx) {
 	}
 }
 
+var c05StringCond = regexp.MustCompile(`^(\w+) (eq|contains) "([^"]*)"$`)
+
+// c05Literals: quoted string literals whose white space matters (two or three blanks, a tab): the
+// query must mean the same on the client, on the wire and on every server.
+func c05Literals(c *Ctx) {
+	shapes := []string{"k=a|v=1|c=A  B", "k=a|v=2|c=A B", "k=b|v=4|c=A\tB", "k=b|v=8|c=A   B"}
+	var queries []c05Query
+	for _, lit := range []string{"A  B", "A B", "A\tB", "A   B", "  "} {
+		queries = append(queries,
+			c05Query{Select: []string{"k", "count(k)", "sum(v)"}, Where: fmt.Sprintf("c eq %q", lit), Group: "k", Format: "generickv"},
+			c05Query{Select: []string{"count(k)", "sum(v)"}, Where: fmt.Sprintf("c contains %q", lit), Group: "", Format: "generickv"})
+	}
+	c05Tables(shapes, 2, func(lines []string) {
+		for _, q := range queries {
+			if !c.Mine() || c.Expired() {
+				continue
+			}
+			c05Check(c, q, lines, c.Shard)
+			vrt.Forget()
+		}
+	})
+}
+
+// c05LiteralsE2E: the same literals through a complete dmap session (client, wire encoding of the query, server
+// handler, map command, reads, aggregation, outfile) against the independent reference.
+func c05LiteralsE2E(c *Ctx) {
+	lines := []string{"k=a|v=1|c=A  B", "k=a|v=2|c=A B", "k=b|v=4|c=A\tB", "k=b|v=8|c=A   B"}
+	path := WriteScratch(fmt.Sprintf("c05/literals-%d.log", c.Shard), strings.Join(lines, "\n")+"\n")
+	for i, lit := range []string{"A  B", "A B", "A\tB", "A   B"} {
+		q := c05Query{Select: []string{"k", "count(k)", "sum(v)"}, Where: fmt.Sprintf("c eq %q", lit), Group: "k", Format: "generickv"}
+		want, ok := c05Reference(q, lines)
+		if !ok {
+			continue
+		}
+		outfile := fmt.Sprintf("%s/c05-lit-%d-%d.csv", Scratch(), c.Shard, i)
+		var got ClientResult
+		res := vrt.Run(vrt.Config{MaxSteps: 5000000, Horizon: 10 * time.Minute}, func() {
+			os.Remove(outfile)
+			args := DefaultArgs()
+			args.Mode = omode.MapClient
+			args.NoColor = true
+			args.Quiet = true
+			args.LogLevel = "error"
+			args.What = path
+			args.QueryStr = fmt.Sprintf("select k,count(k),sum(v) where c eq %q group by k outfile %s logformat generickv", lit, outfile)
+			got = RunClientBody(ClientOpts{Kind: "map", Args: args})
+		})
+		c.Count("literal-e2e|" + lit)
+		b, _ := os.ReadFile(outfile)
+		var rows [][]string
+		for j, l := range strings.Split(strings.TrimSpace(string(b)), "\n") {
+			if j > 0 && l != "" {
+				rows = append(rows, strings.Split(l, ","))
+			}
+		}
+		sort.Slice(rows, func(a, b int) bool { return strings.Join(rows[a], ",") < strings.Join(rows[b], ",") })
+		sort.Slice(want, func(a, b int) bool { return strings.Join(want[a], ",") < strings.Join(want[b], ",") })
+		if res.Fail != nil || got.Status != 0 || fmt.Sprint(rows) != fmt.Sprint(want) {
+			c.Violation("quoted-literal-means-something-else-on-the-server", fmt.Sprintf("dmap 'select k,count(k),sum(v) where c eq %q group by k' over lines %q: result %v, the query denotes %v (status %d %v)", lit, lines, rows, want, got.Status, res.Fail), map[string]string{"literal": lit})
+		}
+	}
+}
+
 func c05Run(c *Ctx) {
+	c05Literals(c)
 	full := c.Thorough()
 	n := 2
 	if full {
@@ -771,6 +871,7 @@ func init() {
 			c05Reporting(c)
 			if c.Shard == 0 {
 				c05LargeValues(c)
+				c05LiteralsE2E(c)
 			}
 			res := vrt.Run(vrt.Config{MaxSteps: 1 << 50, Horizon: 1 << 60}, func() {
 				args := DefaultArgs()
